@@ -679,7 +679,10 @@ htp_status_t htp_connp_RES_BODY_DETERMINE(htp_connp_t *connp) {
     // A request can indicate it waits for headers validation
     // before sending its body cf
     // https://developer.mozilla.org/en-US/docs/Web/HTTP/Headers/Expect
-    if (connp->out_tx->response_status_number >= 400 &&
+    // (the request being answered has to be the one whose body is awaited:
+    // the counters below are those of the request parser)
+    if (connp->in_tx == connp->out_tx &&
+        connp->out_tx->response_status_number >= 400 &&
         connp->out_tx->response_status_number <= 499 &&
         connp->in_content_length > 0 &&
         connp->in_body_data_left == connp->in_content_length) {
